@@ -156,10 +156,13 @@ def StrToInt(input_string):
     # underscores and non-ASCII digits
     if not (input_string.value.isascii() and input_string.value.isdigit()):
         return BVV(-1, 64)
-    try:
-        return BVV(int(input_string.value), 64)
-    except ValueError:
-        return BVV(-1, 64)
+    # (in pieces: int() refuses numerals of more than a few thousand digits)
+    value = 0
+    digits = input_string.value
+    for i in range(0, len(digits), 1000):
+        piece = digits[i : i + 1000]
+        value = (value * 10 ** len(piece) + int(piece)) % 2**64
+    return BVV(value, 64)
 
 
 def StrIsDigit(input_string):
@@ -181,4 +184,12 @@ def IntToStr(input_bvv):
 
     :return:                        the string representation of the integer
     """
-    return StringV(str(input_bvv.value))
+    # (in pieces: str() refuses integers of more than a few thousand digits)
+    value = input_bvv.value
+    piece = 10**1000
+    parts = []
+    while value >= piece:
+        value, rest = divmod(value, piece)
+        parts.append(str(rest).zfill(1000))
+    parts.append(str(value))
+    return StringV("".join(reversed(parts)))
